@@ -81,7 +81,9 @@ def _on_yield(code, off, val):
         return
     fid = id(sys._getframe(1))
     head = val[0]
-    if head == 3 and head is not True:
+    # a request is `(tag, callee, pos)` with a non-boolean tag and a callable callee; the one final
+    # yield of a body is `(status, value, pos)` with a boolean status (the tag's value is sourcer's)
+    if not isinstance(head, bool) and callable(val[1]):
         callee = val[1]
         rec['pending'][fid] = (callee, val[2])
         co = getattr(callee, '__code__', None)
@@ -241,7 +243,7 @@ def memoless(module, fname, text, pos):
     result = None
     while stack:
         result = stack[-1].send(result)
-        if result[0] == 3 and result[0] is not True:
+        if not isinstance(result[0], bool) and callable(result[1]):
             stack.append(call(result[1], result[2]))
             result = None
         else:
@@ -320,7 +322,7 @@ def amplify(r, e, p, lits):
 
 def family(r, named):
     """Hand-shaped grammar families whose un-memoised evaluation is exponential in the input."""
-    kind = r.choice(['nested-alts', 'lookahead-list', 'rep-choice', 'longest-nest', 'shared-prefix-seq'])
+    kind = r.choice(['nested-alts', 'lookahead-list', 'rep-choice', 'longest-nest', 'shared-prefix-seq', 'single-site'])
     long_texts = []
     n_long = r.choice([150, 400, 1200, 3000])
     hook = lambda tag, e: (['right', ['hook', tag], e] if r.random() < 0.8 else e)
@@ -359,6 +361,26 @@ def family(r, named):
             items.append({'k': 'rule', 'name': 'W', 'expr': hook('h3', ['left', ['re', '[a-c]'], ['opt', ['lit', ',']]])})
         texts = ['ab=a,b,c!', 'ab=abc.', 'a=c,c,c', 'ab=a,b;', 'b=', 'ab=a,b,c,a,b,c,a,b,c?']
         long_texts = ['ab=' + 'a,b,c,' * (n_long // 3) + '!', 'ab=' + 'abc' * (n_long // 3) + '?']
+    elif kind == 'single-site':
+        # every rule below is referred to from exactly ONE place in the text of the grammar, and yet is
+        # asked for again at the same position: the enclosing body runs from several start positions
+        # (a variable-width prefix brings them to the same place), or the single site sits in a
+        # parameterised rule that is invoked with different arguments at one position
+        items.append({'k': 'rule', 'name': 'Kw', 'params': ['w'], 'expr': ['where', ['ref', 'N'], 'lambda v: v == w']})
+        items.append({'k': 'rule', 'name': 'start', 'expr': ['star', ['alt', ['ref', 'X'], ['ref', 'K'], ['lit', 'a'], ['lit', ';']]]})
+        items.append({'k': 'rule', 'name': 'X', 'expr': hook('h1', ['right', ['star', ['lit', 'a']], ['ref', 'R']])})
+        if r.random() < 0.5:
+            items.append({'k': 'class', 'name': 'R', 'fields': [
+                {'name': 'h', 'expr': ['hook', 'h2'], 'mod': 'pass'},
+                {'name': 'b', 'expr': ['lit', 'b'], 'mod': ''},
+                {'name': 'c', 'expr': ['opt', ['ref', 'T']], 'mod': ''}]})
+        else:
+            items.append({'k': 'rule', 'name': 'R', 'expr': hook('h2', ['seq', ['lit', 'b'], ['opt', ['ref', 'T']]])})
+        items.append({'k': 'rule', 'name': 'T', 'expr': hook('h3', ['plus', ['lit', 'c']])})
+        items.append({'k': 'rule', 'name': 'K', 'expr': ['alt', ['call', 'Kw', ['lit', 'xy']], ['call', 'Kw', ['lit', 'x']], ['call', 'Kw', ['lit', 'y']]]})
+        items.append({'k': 'rule', 'name': 'N', 'expr': hook('h4', ['re', '[xy]'])})
+        texts = ['aaab', 'aaac', 'aabcc;aab', 'aaaa', 'xy;yx', 'aaxaab', 'abcabc;', 'aaa;aaab;x']
+        long_texts = ['aaac' * n_long, ('aab' + 'c' * 3 + ';') * (n_long // 2) + 'aaaa']
     elif kind == 'lookahead-list':
         # start = List([Expect(T), T]) ; the result must contain one object twice
         items.append({'k': 'rule', 'name': 'start', 'expr': ['star', ['seq', ['expect', ['ref', 'T']], ['ref', 'T']]]})
